@@ -4,6 +4,8 @@ import RefurbVerif.Wire.Report
 import RefurbVerif.Wire.Paths
 import RefurbVerif.Model.Run
 import RefurbVerif.Generated.NoqaLines
+import RefurbVerif.Model.History
+import RefurbVerif.Generated.Globals
 open Lean
 
 namespace RefurbVerif.Wire
@@ -44,9 +46,92 @@ def outcomeKind : Outcome → String
 
 end RunW
 
+/-! ### C11: regrouping and process history (Model/History.lean) -/
+
+namespace HistW
+open RefurbVerif.History
+
+def toKind (s : String) : KeyKind :=
+  if s == "cell" then .cell else if s == "liveNode" then .liveNode else .stable
+
+/-- `"clear"`, `"refresh"`, `"put:<kind>"`, `"get:<kind>"`, `"memo:<kind>"`, `"putConst:<int>"`, `"bump:<int>"` -/
+def toOp (s : String) : Op :=
+  match s.splitOn ":" with
+  | ["clear"] => .clear
+  | ["refresh"] => .refresh
+  | ["put", k] => .put (toKind k)
+  | ["get", k] => .get (toKind k)
+  | ["memo", k] => .memo (toKind k)
+  | ["putConst", v] => .putConst (v.toInt?.getD 0)
+  | ["bump", v] => .bump (v.toInt?.getD 0)
+  | _ => .get .stable
+
+def kindS : KeyKind → String
+  | .cell => "cell" | .stable => "stable" | .liveNode => "liveNode"
+
+def opS : Op → String
+  | .clear => "clear" | .refresh => "refresh" | .put k => "put:" ++ kindS k | .get k => "get:" ++ kindS k
+  | .memo k => "memo:" ++ kindS k | .putConst v => "putConst:" ++ toString v | .bump d => "bump:" ++ toString d
+
+def toPair (j : Json) : Nat × Op := (nat j "c", toOp (str j "op"))
+
+/-- `{i:"op", c, op}` | `{i:"free", allowed:[{c, op}]}` | `{i:"defer", c, op}` -/
+def toInstr (j : Json) : Instr :=
+  match str j "i" with
+  | "op" => .op (nat j "c") (toOp (str j "op"))
+  | "defer" => .defer (nat j "c") (toOp (str j "op"))
+  | _ => .free ((arr j "allowed").map toPair)
+
+def instrJ : Instr → Json
+  | .op c o => Json.mkObj [("i", "op"), ("c", c), ("op", opS o)]
+  | .defer c o => Json.mkObj [("i", "defer"), ("c", c), ("op", opS o)]
+  | .free al => Json.mkObj [("i", "free"), ("allowed", Json.arr (al.map (fun p => Json.mkObj [("c", p.1), ("op", opS p.2)])).toArray)]
+
+/-- the requests of one phase, one after the other (what was read does not change the plan) -/
+def toProg : List Json → Prog
+  | [] => .done
+  | j :: rest => .act (nat j "c") (toOp (str j "op")) (nat j "n") (fun _ => toProg rest)
+
+/-- `{stop?, vals:[{c, n, v}], phases:[{at, acts:[{c, op, n}]}]}` -/
+def toInput (j : Json) : Input :=
+  let vals := (arr j "vals").map (fun x => ((nat x "c", nat x "n"), int x "v"))
+  let phases := (arr j "phases").map (fun x => (nat x "at", toProg (arr x "acts")))
+  { val := fun c n => ((vals.find? (fun p => p.1 == (c, n))).map (·.2)).getD 0
+    prog := fun idx => ((phases.find? (fun p => p.1 == idx)).map (·.2)).getD .done
+    stop := match j.getObjVal? "stop" with
+      | .ok (.num n) => some n.mantissa.toNat
+      | _ => none }
+
+/-- the script as component `c` sees it (same instruction indices; the components do not interact) -/
+def restrict (c : Nat) : Instr → Instr
+  | .op c' o => if c' = c then .op c' o else .free []
+  | .free al => .free (al.filter (fun p => p.1 == c))
+  | .defer c' o => if c' = c then .defer c' o else .free []
+
+def discS : Discipline → String
+  | .resetAtRunStart => "resetAtRunStart" | .overwrittenBeforeRead => "overwrittenBeforeRead" | .constant => "constant"
+  | .keyedByLiveNodeIdentity => "keyedByLiveNodeIdentity" | .leaks => "leaks"
+
+def obsJ (l : List (Option Int)) : Json := Json.arr (l.map (optJ (fun (v : Int) => (v : Json)))).toArray
+
+/-- every run of the history, threaded through one process, and the same run in a fresh interpreter -/
+def runAll (T : Script) : Globals → List Input → List Json
+  | _, [] => []
+  | G, i :: rest =>
+    let r := runIn T G i
+    Json.mkObj [("obs", obsJ r.1), ("fresh", obsJ (runIn T init i).1)] :: runAll T r.2 rest
+
+end HistW
+
 /-- driver verbs of the whole-run model (Model/Run.lean).
     `run_main`: JSON of a `RunInput` ↦ `{stdout, exit, kind}`;
-    `run_items`: the list `run_refurb` returns for the loaded settings (for diagnosis of a disagreement) -/
+    `run_items`: the list `run_refurb` returns for the loaded settings (for diagnosis of a disagreement);
+    `regroup`: `{groups: [[item]], by}` ↦ the stable sort of the group reports put one after the other, their k-way
+      merge, and whether each group is in the documented order (Props/C11 `run_grouping_partition[_merge]`);
+    `about`: `{items, path}` ↦ the items that are diagnostics about that file (Props/C11 `run_one_by_one`);
+    `globals_table`: today's components, their disciplines, the script (Generated/Globals.lean);
+    `run_history`: `{script?, only?, history: [run]}` ↦ what every run reads from the process-global state, in the process
+      and in a fresh interpreter (Model/History.lean `runIn`); the script defaults to today's -/
 def handleRun (verb : String) (j : Json) : Option Json :=
   match verb with
   | "run_main" =>
@@ -61,6 +146,35 @@ def handleRun (verb : String) (j : Json) : Option Json :=
         | some items => Json.mkObj [("items", Json.arr (items.map itemJ).toArray)]
         | none => Json.mkObj [("raised", "IndexError")]
       | .error _ => Json.mkObj [("raised", "settings")])
+  | "regroup" =>
+    let groups := (arr j "groups").map (fun g => (g.getArr?.toOption.getD #[]).toList.map toItem)
+    let by_ := if str j "by" == "error" then SortBy.error else SortBy.filename
+    some (Json.mkObj [
+      ("sorted", Json.arr ((ssort (leItem by_) groups.flatten).map itemJ).toArray),
+      ("merged", Json.arr ((mergeAll by_ groups).map itemJ).toArray),
+      ("each_sorted", Json.arr (groups.map (fun g => (isSortedB by_ g : Json))).toArray)])
+  | "about" =>
+    let items := (arr j "items").map toItem
+    some (Json.arr ((items.filter (Item.isAbout (chars j "path"))).map itemJ).toArray)
+  | "globals_table" =>
+    let t := Generated.globalsTable
+    some (Json.mkObj [
+      ("disciplines", Json.arr (t.disciplines.map (fun p => Json.arr #[(p.1 : Json), (HistW.discS p.2 : Json)])).toArray),
+      ("no_leaks", History.noLeaks t.script),
+      ("script", Json.arr (t.script.map HistW.instrJ).toArray)])
+  | "run_history" =>
+    let T₀ : History.Script := match j.getObjVal? "script" with
+      | .ok (.arr a) => a.toList.map HistW.toInstr
+      | _ => Generated.globalsScript
+    -- `only: c` — the trace of component `c` alone
+    let T : History.Script := match j.getObjVal? "only" with
+      | .ok (.num n) => T₀.map (HistW.restrict n.mantissa.toNat)
+      | _ => T₀
+    let comps := (List.range ((History.comps T₀).foldl max 0 + 1))
+    some (Json.mkObj [
+      ("runs", Json.arr (HistW.runAll T History.init ((arr j "history").map HistW.toInput)).toArray),
+      ("disciplines", Json.arr (comps.map (fun c => (HistW.discS (History.classify T₀ c) : Json))).toArray),
+      ("no_leaks", History.noLeaks T₀)])
   | _ => none
 
 end RefurbVerif.Wire
